@@ -11,6 +11,7 @@ is serialisable under every interleaving) and checks, against the effect table r
 source, that no public entry point writes a shared object."""
 import copy
 import decimal
+import hashlib
 import io
 import os
 import random
@@ -131,8 +132,28 @@ def make_ops(seed):
         "read-decimal-p2": lambda: str(schemaless_reader(io.BytesIO(b2), D2)),
         "read-decimal-fixed-p9": lambda: str(schemaless_reader(io.BytesIO(b9), D9)),
     }
+    # deeply nested data (a linked list of a few hundred nodes): whatever such an operation does alone — return or
+    # RecursionError — it does in every schedule
+    # (nesting through an array, not through a union: no branch matching, the cost stays linear in the depth)
+    LIST = {"type": "record", "name": "t.Node", "fields": [{"name": "v", "type": "int"}, {"name": "next", "type": {"type": "array", "items": "t.Node"}}]}
+    P["LIST"] = parse_schema(copy.deepcopy(LIST))
+    deep = {"v": 0, "next": []}
+    for i_ in range(1, 300):
+        deep = {"v": i_, "next": [deep]}
+    shallow = {"v": 1, "next": [{"v": 2, "next": []}]}
+    b_shallow = enc(P["LIST"], shallow)
+    ops["write-deep-list"] = lambda: hashlib.sha1(enc(P["LIST"], deep)).hexdigest()
+    ops["write-read-shallow-list"] = lambda: canon(to_wire(schemaless_reader(io.BytesIO(enc(P["LIST"], shallow)), P["LIST"])))
+    ops["read-shallow-list"] = lambda: canon(to_wire(schemaless_reader(io.BytesIO(b_shallow), P["LIST"])))
     ops_shared = [P[k] for k in sorted(P)]
-    return ops, ops_shared
+    raw = {"REC": REC, "LOG": LOG, "LIST": LIST}
+
+    def refresh():
+        """freshly parsed schema objects (no operation has touched them yet) under the same names"""
+        for k in sorted(P):
+            P[k] = parse_schema(copy.deepcopy(raw[k]))
+        ops_shared[:] = [P[k] for k in sorted(P)]
+    return ops, ops_shared, refresh
 
 
 def count_points(op):
@@ -213,7 +234,9 @@ def shared_state_digest(shared):
                            if (name == "fastavro" or name.startswith("fastavro.")) and mod is not None]
     # re-binding of module-level names (`global X; X = ...`): identity of every non-callable global, number of globals
     mods = tuple((len(d), tuple(id(d.get(k)) for k in keys)) for d, keys in _MODULE_GLOBALS)
-    return hash((tuple(_sig(o) for o in _SHARED_OBJS), mods, repr(shared)))
+    # interpreter-wide settings an operation might change and put back
+    interp = (sys.getrecursionlimit(), repr(decimal.getcontext()), sys.getswitchinterval())
+    return hash((tuple(_sig(o) for o in _SHARED_OBJS), mods, repr(shared), interp))
 
 
 def dirty_points(op, shared):
@@ -229,6 +252,8 @@ def dirty_points(op, shared):
 
         def hit():
             n[0] += 1
+            if n[0] > 6000:             # a long operation: its first 6000 line events are what is fingerprinted
+                return
             d = shared_state_digest(shared)
             if d != last[0]:
                 last[0] = d
@@ -249,6 +274,97 @@ def dirty_points(op, shared):
     for c in changes[:12]:
         pts.update(range(c, c + 20))
     return sorted(pts), changes
+
+
+def sensitive_points(op, shared):
+    """line events of `op` (run alone) in frames one of whose local variables IS one of the shared parsed-schema objects:
+    there the operation is working on — possibly iterating over — the very object other operations hold too"""
+    pts = []
+    n = [0]
+
+    def tracer(frame, event, arg):
+        if not frame.f_code.co_filename.startswith(PKG):
+            return None
+
+        def hit(frame):
+            n[0] += 1
+            try:
+                vals = list(frame.f_locals.values())
+            except Exception:  # noqa
+                return
+            if any(v is s_ for v in vals for s_ in shared):
+                pts.append(n[0])
+
+        def local(frame, event, arg):
+            if event == "line":
+                hit(frame)
+            return local
+        hit(frame)
+        return local
+    sys.settrace(tracer)
+    try:
+        outcome(op)
+    finally:
+        sys.settrace(None)
+    return pts
+
+
+def run_two_switches(opA, opB, k, j):
+    """A is parked at its k-th line event, B starts and is parked at its j-th, A resumes and completes, then B completes:
+    start(A) < start(B) < end(A) < end(B).  Returns (result A, result B)."""
+    a_parked, a_resume, b_parked, b_resume = threading.Event(), threading.Event(), threading.Event(), threading.Event()
+    res = {}
+
+    def mk_tracer(at, parked, resume):
+        n = [0]
+
+        def tracer(frame, event, arg):
+            if not frame.f_code.co_filename.startswith(PKG):
+                return None
+
+            def hit():
+                n[0] += 1
+                if n[0] == at:
+                    parked.set()
+                    resume.wait(20)
+
+            def local(frame, event, arg):
+                if event == "line":
+                    hit()
+                return local
+            hit()
+            return local
+        return tracer
+
+    def A():
+        sys.settrace(mk_tracer(k, a_parked, a_resume))
+        try:
+            res["A"] = outcome(opA)
+        finally:
+            sys.settrace(None)
+            a_parked.set()
+            b_resume.set()
+
+    def B():
+        a_parked.wait(20)
+        sys.settrace(mk_tracer(j, b_parked, b_resume))
+        try:
+            res["B"] = outcome(opB)
+        finally:
+            sys.settrace(None)
+            b_parked.set()
+
+    def conductor():
+        a_parked.wait(20)
+        b_parked.wait(20)
+        a_resume.set()
+
+    ts = [threading.Thread(target=f) for f in (A, B, conductor)]
+    for t in ts:
+        t.start()
+    for t in ts:
+        t.join(40)
+    return res.get("A"), res.get("B")
 
 
 def run_preempted(opA, opB, k):
@@ -308,14 +424,17 @@ def run(tier, seed):
                 "chosen pre-emption point (quick: up to 24 evenly spaced points plus every point inside functions that touch a "
                 "module-level state object; thorough: every point); results compared with the sequential ones")
     run.lean(TARGETS, THEOREMS)
-    ops, ops_shared = make_ops(seed)
+    ops, ops_shared, refresh = make_ops(seed)
     alone = {k: outcome(f) for k, f in ops.items()}
     # windows in which an operation, run alone, has changed state that operations share (found dynamically, whatever the
     # static effect table says): every point of those windows is a pre-emption point for every partner
     dirty = {}
+    first_use_changes = {}
     for k_, f_ in ops.items():
+        refresh()                       # what an operation does to a parsed schema the FIRST time it meets it counts too
         pts, changes = dirty_points(f_, ops_shared)
         dirty[k_] = pts
+        first_use_changes[k_] = changes
         if changes:
             run.tag("shared-state-changes:" + k_, len(changes))
     alone2 = {k: outcome(f) for k, f in ops.items()}
@@ -372,6 +491,8 @@ def run(tier, seed):
                     sys.settrace(None)
                 points = sorted(set(points) | set(extra))
             for k in points:
+                if first_use_changes[a] or first_use_changes[b]:
+                    refresh()
                 ra, rb, where = run_preempted(ops[a], ops[b], k)
                 case = {"A": a, "B": b, "preempt_at": k, "where": where, "tags": [a, b]}
                 run.count(case, True, ["A:" + a])
@@ -380,6 +501,52 @@ def run(tier, seed):
                     case["A_alone"], case["A_interleaved"], case["B_alone"], case["B_interleaved"] = alone[a], ra, alone[b], rb
                     run.fail(case, "a thread's result under an interleaving differs from its sequential result", kind="oracle")
                     break
+    # ---- an operation that changes shared state (also: the first time it meets a fresh parsed schema) against partners parked
+    # where THEY hold one of the shared schema objects in a local variable (iterating over it, say)
+    changers = [b for b in names if first_use_changes[b]]
+    if changers:
+        for a in names:
+            refresh()
+            sp = sensitive_points(ops[a], ops_shared)
+            if len(sp) > 40:
+                step = len(sp) / 40.0
+                sp = sorted({sp[int(i * step)] for i in range(40)})
+            for b in changers:
+                for k in sp:
+                    refresh()
+                    ra, rb, where = run_preempted(ops[a], ops[b], k)
+                    case = {"A": a, "B": b, "preempt_at": k, "where": where, "fresh_schema_objects": True, "tags": [a, b, "first-use"]}
+                    run.count(case, True, ["first-use"])
+                    if ra != alone[a] or rb != alone[b]:
+                        case["A_alone"], case["A_interleaved"], case["B_alone"], case["B_interleaved"] = alone[a], ra, alone[b], rb
+                        run.fail(case, "a thread's result under an interleaving differs from its sequential result", kind="oracle")
+                        break
+    # ---- two switches: A parked inside a window in which it has changed shared or interpreter-wide state, B started and
+    # parked, A completes (putting things back), B completes
+    for a in names:
+        win = dirty[a]
+        if not win:
+            continue
+        ks = sorted({win[int(i * len(win) / 6.0)] for i in range(6)})
+        for b in names:
+            nb = count_points(ops[b])
+            if nb < 4:
+                continue
+            js = sorted({max(1, int(nb * f)) for f in (0.15, 0.4, 0.6, 0.85)})
+            if tier == "quick" and not (b.endswith("-list") or zlib.crc32(("2s|%s|%s|%d" % (a, b, seed)).encode()) % 4 == 0):
+                continue
+            for k in ks:
+                for j in js:
+                    if first_use_changes[a] or first_use_changes[b]:
+                        refresh()
+                    ra, rb = run_two_switches(ops[a], ops[b], k, j)
+                    case = {"A": a, "B": b, "A_parked_at": k, "B_parked_at": j, "schedule": "A parked, B parked, A completes, B completes",
+                            "tags": [a, b, "two-switches"]}
+                    run.count(case, True, ["two-switches"])
+                    if ra != alone[a] or rb != alone[b]:
+                        case["A_alone"], case["A_interleaved"], case["B_alone"], case["B_interleaved"] = alone[a], ra, alone[b], rb
+                        run.fail(case, "a thread's result under an interleaving differs from its sequential result", kind="oracle")
+                        break
     if tier != "quick":
         # free-running threads with a tiny switch interval
         old = sys.getswitchinterval()
